@@ -337,6 +337,7 @@ def option_value_table(prog, chk):
         chk.ok("C20.f", rd, "short options: %d combinations agree with the getopt decision table" % total2, where, "finite valuation of the guards", evals=total2)
     quoted_word_typestate(prog, chk, "C20.h")
     descriptor_pairing(prog, chk, "C20.i")
+    environment_handover(prog, chk, "C20.j")
 
 
 def quoted_word_typestate(prog, chk, rid):
@@ -499,3 +500,109 @@ def descriptor_pairing(prog, chk, rid):
                     chk.bad(rid, f, "descriptor-zeroed-without-close:" + fd, f.where(z),
                             "`%s` is set to 0 on a path that did not close it: the pipe end stays open (the child never sees end-of-file) and "
                             "read()/write() then use descriptor 0" % fd, f.path_lines(p) if p else None)
+
+
+def environment_handover(prog, chk, rid):
+    """"A child started with an environment map receives exactly that environment": the NAME=value strings are built one per map entry
+    and all of them, followed by a null pointer, are handed to exec"""
+    chk.rule(rid, "CNT/MPT: prepareEnv appends one string made of the entry's key and value on every iteration over the map; start()/open() "
+                  "size the pointer array from that list (+1), store one pointer per string, terminate it and pass it to exec", floor=3)
+    pe = [f for f in prog.functions.values() if f.short == "prepareEnv" and f.file.endswith("Process.cpp") and f.blocks]
+    if not pe:
+        raise AnalysisBroken("prepareEnv not found in Process.cpp")
+    for f in pe:
+        where = "%s:%s" % (f.file, f.line)
+        envp, outp = f.params[0]["n"], f.params[1]["n"]
+        apps = [c for c in q.calls(f) if f.nodes[c].get("callee", "").endswith("::append") and q.call_object(f, c) is not None and
+                q.no_casts(f.r(q.call_object(f, c))) == outp]
+        advs = [c for c in q.calls(f) if f.nodes[c]["k"] == "CXXOperatorCallExpr" and f.nodes[c].get("oop") == "++"]
+        advs = [c for c in advs if C.loop_blocks(f, c)]
+        if not apps or not advs:
+            chk.bad(rid, f, "environment-strings-not-built", where, "prepareEnv no longer walks the map appending to `%s`" % outp)
+            continue
+        lb = C.loop_blocks(f, advs[0])
+        heads = [x for x in lb if any(p_ not in lb for p_ in f.preds.get(x, []))]
+        skip = f.find_path((heads[0], 0), {(heads[0], 0)}, avoid=q.pos_of(f, apps)) if heads else None
+        if skip is not None:
+            chk.bad(rid, f, "environment-entry-skipped", f.where(apps[0]),
+                    "an iteration over the environment map can finish without appending a NAME=value string (lines %s): that entry is not "
+                    "passed to the child (a variable set to the empty string is not the same as an unset one)" % f.path_lines(skip))
+        else:
+            chk.ok(rid, f, "one string per map entry", f.where(apps[0]), "no path around append() inside the loop", evals=2)
+        it = q.no_casts(f.r(f.nodes[advs[0]]["c"][1]))
+        for c in apps:
+            t = q.no_casts(q.xr(f, q.call_args(f, c)[0]))
+            lits = [f.nodes[x] for x in f.desc(q.call_args(f, c)[0]) if f.nodes[x]["k"] == "StringLiteral"]
+            okc = ("%s.key()" % it) in t and ("*%s" % it) in t and any(l_.get("bytes") == [61] or l_.get("v") == "=" or '"="' in f.r(l_["i"]) for l_ in lits)
+            if okc:
+                chk.ok(rid, f, "string is key + \"=\" + value of the current entry", f.where(c), t[:60], evals=1)
+            else:
+                chk.bad(rid, f, "environment-string-shape", f.where(c), "the appended string `%s` is not key + \"=\" + value of the current entry" % t[:80])
+    users = [f for f in prog.functions.values() if f.clsq == "Process" and f.blocks and any(f.nodes[c].get("callee", "").endswith("prepareEnv") for c in q.calls(f))]
+    if len(users) < 2:
+        raise AnalysisBroken("callers of prepareEnv: %d found, 2 expected (start, open)" % len(users))
+    for f in users:
+        defs = q.local_defs(f)
+        for pc in [c for c in q.calls(f) if f.nodes[c].get("callee", "").endswith("prepareEnv")]:
+            lst = q.no_casts(f.r(q.call_args(f, pc)[1])).lstrip("&")
+            execs = [c for c in q.calls(f) if re.match(r"^execv?p?e$|^execve$|^execvpe$", f.nodes[c].get("callee", "") or "") and q.reaches(f, pc, c)]
+            if not execs:
+                chk.bad(rid, f, "environment-not-passed", f.where(pc), "no exec call that takes an environment follows prepareEnv")
+                continue
+            for ex in execs:
+                earg = q.call_args(f, ex)[-1]
+                en = f.nodes[f.strip(earg)]
+                while en["k"] in ("CStyleCastExpr", "ImplicitCastExpr", "ParenExpr") and en["c"]:
+                    en = f.nodes[f.strip(en["c"][0])] if f.strip(en["c"][0]) != en["i"] else f.nodes[en["c"][0]]
+                if en["k"] != "DeclRefExpr":
+                    chk.bad(rid, f, "environment-not-passed", f.where(ex), "exec is not given the prepared environment array")
+                    continue
+                arr_id, arr = en["ref"]["id"], en["ref"]["n"]
+                allocs = [(nd, init) for kind, nd, init in defs.get(arr_id, []) if init is not None and q.reaches(f, pc, nd) and
+                          re.search(r"alloca|malloc|new ", f.r(init))]
+                problems = []
+                if not allocs:
+                    problems.append("`%s` is not re-pointed to an array sized for the prepared strings" % arr)
+                else:
+                    at = q.no_casts(q.xr(f, allocs[0][1])).replace(" ", "")
+                    ac = [c_ for c_ in q.calls(f) if c_ in f.desc(allocs[0][1]) and re.search(r"alloca|malloc", f.nodes[c_].get("callee", "") or "")]
+                    sized = False
+                    if ac:
+                        # the byte count for 3 / 7 prepared strings must hold 4 / 8 pointers
+                        vals_ = [fin.eval_expr(f, q.call_args(f, ac[0])[0], {lst + ".size()": k_}) for k_ in (3, 7)]
+                        sized = all(v_ is not None for v_ in vals_) and vals_[0] >= 8 * 4 and vals_[1] >= 8 * 8
+                    if not sized and not re.search(r"\(%s\.size\(\)\+1\)|\(1\+%s\.size\(\)\)" % (re.escape(lst), re.escape(lst)), at):
+                        problems.append("the pointer array is not sized `%s.size() + 1` (%s)" % (lst, at[:60]))
+                    # cursor over the array: local initialised from it and stored through with ++
+                    curs = [did for did, dl in defs.items() for kind, nd, init in dl if init is not None and q.no_casts(f.r(init)) == arr and q.reaches(f, allocs[0][0], nd)]
+                    cname = None
+                    for did in curs:
+                        cname = next((n_["ref"]["n"] for n_ in f.nodes if n_["k"] == "DeclRefExpr" and n_["ref"].get("id") == did), None)
+                    bases = {arr} | ({cname} if cname else set())
+
+                    def slot(s_):
+                        """(base, kind) when the store writes one slot of the pointer array: through the cursor or by index"""
+                        l_ = f.nodes[s_.lhs]
+                        if l_["k"] == "ArraySubscriptExpr":
+                            b_ = q.no_casts(f.r(l_["c"][0]))
+                            return (b_, "index") if b_ in bases else None
+                        m_ = re.match(r"^\*\(?(\w+)(\+\+)?\)?$", q.no_casts(f.r(s_.lhs)).replace(" ", ""))
+                        if m_ and m_.group(1) in bases:
+                            return (m_.group(1), "cursor")
+                        return None
+                    sts = [s_ for s_ in q.stores(f) if s_.rhs is not None and s_.op == "=" and slot(s_) and q.reaches(f, allocs[0][0], s_.node)]
+                    fills = [s_ for s_ in sts if C.loop_blocks(f, s_.node) and not q.is_zero(f, s_.rhs)]
+                    terms = [s_ for s_ in sts if not C.loop_blocks(f, s_.node) and q.is_zero(f, s_.rhs)]
+                    if not fills:
+                        problems.append("no loop stores one pointer per prepared string through a cursor over `%s`" % arr)
+                    else:
+                        lb = C.loop_blocks(f, fills[0].node)
+                        heads = [x for x in lb if any(p_ not in lb for p_ in f.preds.get(x, []))]
+                        if heads and f.find_path((heads[0], 0), {(heads[0], 0)}, avoid=q.pos_of(f, [s_.node for s_ in fills])) is not None:
+                            problems.append("an iteration over the prepared strings can skip the pointer store")
+                    if not terms or f.find_path(f.node_pos(allocs[0][0]), {f.node_pos(ex)}, avoid=q.pos_of(f, [s_.node for s_ in terms])) is not None:
+                        problems.append("the pointer array is not null-terminated on every path to exec")
+                if problems:
+                    chk.bad(rid, f, "environment-array:" + arr, f.where(ex), "; ".join(problems) + ": the child gets a different environment than the map, or exec reads past the array")
+                else:
+                    chk.ok(rid, f, "environment array sized, filled, terminated and passed to %s" % f.nodes[ex]["callee"], f.where(ex), "size() + 1, store per string, null store before exec", evals=4)
